@@ -90,7 +90,8 @@ def theorems_of(props_module):
                 ns.pop()
             m = re.match(r"(?:@\[[^\]]*\]\s*)?theorem\s+([A-Za-z0-9_.']+)", line)
             if m:
-                names.append(".".join(ns + [m.group(1)]))
+                n = m.group(1)
+                names.append(n[len("_root_."):] if n.startswith("_root_.") else ".".join(ns + [n]))
     return names
 
 
